@@ -9,7 +9,7 @@ from __future__ import annotations
 
 PROPERTY = "C10"
 RULE = (
-    "seeded scenes (PML subsets / periodic / walls, iso or diag materials, optional loss) with 2-3 sources out of "
+    "seeded scenes (PML subsets / periodic / walls, iso or diag materials, optional loss, half of them with a Lorentz or Drude box) with 2-3 sources out of "
     "dipole, magnetic dipole, tilted dipole, uniform plane, Gaussian plane (random switches and profiles) and 2-4 "
     "detectors (field, phasor: linear; energy, poynting: quadratic). distinct = (relation, source kinds, detector "
     "kinds, has_pml); non-trivial iff the combined run's fields are non-zero"
@@ -54,7 +54,7 @@ def _one(sc, r):
         interior=(4, 7),
         pml=sc["pml"],
         pml_thickness=(1, 3),
-        materials=["none", "iso", "diag"][int(rng.integers(3))],
+        materials=["none", "iso", "iso", "diag"][int(rng.integers(4))],
         lossy=bool(rng.random() < 0.3),
         n_sources=(2, 3),
         source_kinds=("dipole", "mdipole", "tilted_dipole", "uniform", "gaussian"),
@@ -63,6 +63,14 @@ def _one(sc, r):
         grid=("uniform", "uniform", "rect"),
     )
     meta = scene["meta"]
+    # half of the scenes carry a (stable) dispersive box: dispersion switches the plane sources to a separate
+    # injection path (pre-computed H-side temporal profile) that must be just as linear
+    meta["dispersive"] = bool(rng.random() < 0.5)
+    if meta["dispersive"]:
+        dtn = 0.99 * 50e-9 / (np.sqrt(3.0) * 299792458.0)
+        ilo, ihi = scenes.interior_box(scene)
+        pole = [{"kind": "lorentz", "w0": 0.3 / dtn, "gamma": 0.05 / dtn, "deps": 1.0}, {"kind": "drude", "wp": 0.1 / dtn, "gamma": 0.02 / dtn}][int(rng.integers(2))]
+        scene["materials"].append({"lo": [h - 2 for h in ihi], "hi": list(ihi), "mat": {"eps": 2.0, "dispersion": {"poles": [pole]}}, "order": 5})
     for s in scene["sources"]:
         s["factor"] = 1.0
     nsrc = len(scene["sources"])
@@ -92,7 +100,8 @@ def _one(sc, r):
     _, E_sc, H_sc, D_sc = run(s_sc)
 
     nontriv = float(np.abs(E_all).max()) > 0
-    base_sig = (tuple(sorted(meta["source_kinds"])), tuple(sorted(meta["detector_kinds"])), bool(meta["pml_faces"]))
+    base_sig = (tuple(sorted(meta["source_kinds"])), tuple(sorted(meta["detector_kinds"])), bool(meta["pml_faces"]), meta["dispersive"])
+    r.branch("dispersive_scene" if meta["dispersive"] else "non_dispersive_scene")
     for k in meta["source_kinds"]:
         r.branch("source:" + k)
     for k in meta["detector_kinds"]:
